@@ -2,9 +2,12 @@ package app_test
 
 // Engine `twap` (property C10): the REAL x/twap keeper driven through the app.
 //
-// One app per run; every history creates a fresh pool (balancer 2/3 assets or concentrated) and
-// follows ONE asset pair of it.  Blocks are real ABCI blocks (FinalizeBlock + Commit) with chosen,
-// irregular block times: prices are moved by real swap / join / exit / position messages, the
+// Two kinds of histories share the op budget.  WORLD histories (twap_world_test.go): a chain of its own with many
+// pools (ids that are prefixes / neighbours of each other in the key encodings), several pairs per pool (denoms that
+// are prefixes / byte neighbours of each other), blocks that repeat a timestamp so that one pool's update is rejected
+// while others go through, all-pairs questions around pruning passes, a raw-store oracle.  SINGLE-POOL histories (this
+// file): every history creates a fresh pool (balancer 2/3 assets or concentrated) and follows ONE asset pair of it.
+// Blocks are real ABCI blocks (FinalizeBlock + Commit) with chosen, irregular block times: prices are moved by real swap / join / exit / position messages, the
 // pool is tracked by the twap listeners, the twap EndBlocker writes the records and prunes.
 // After every block the engine reads the stored most recent record back and emits the op line
 // (`create` / `update`) carrying the spot prices the keeper used; queries go to the public
@@ -87,6 +90,7 @@ type twQuery struct {
 	flag     bool
 	zero     bool // judged as a zero-result finding
 	panicMsg string
+	w        string // "<pool> <d0> <d1>" for a query of a world history (ops `warith` / `wgeom`), else ""
 }
 
 // catchMsg: like catch, and keeps the panic value.
@@ -115,6 +119,13 @@ type twEngine struct {
 	logCache map[string]*big.Float
 	prunedAt time.Time // pruning state LastKeptTime already reported to the model
 	hugeExp  int       // decimal exponent of the reserves of a huge-reserves pool
+
+	// world histories (twap_world_test.go): several pools with several pairs on one chain
+	w          *twWorld
+	wq         string     // query prefix of the pair in view
+	pickCut    *time.Time // cutoff of the pruning pass about to be armed: pickTime aims at it
+	lastAct    string     // kind and outcome of the last action()
+	lastActErr error
 }
 
 // finalize ends the current block through the real ABCI flow and opens the next one at `next`.
@@ -546,6 +557,7 @@ func (e *twEngine) action() {
 }
 
 func (e *twEngine) note(k string, err error) {
+	e.lastAct, e.lastActErr = k, err
 	if err != nil {
 		e.o.Count("action." + k + ".rejected")
 	} else {
@@ -836,7 +848,14 @@ func (e *twEngine) exportImport() {
 		}
 		e.dump()
 	}
-	// ---- (B)
+	e.exportImportModule()
+}
+
+// exportImportModule: run (B) of exportImport (the whole module on a discarded branch).
+func (e *twEngine) exportImportModule() {
+	k := e.h.App.TwapKeeper
+	o := e.o
+	cdc := e.h.App.AppCodec()
 	{
 		cctx, _ := e.h.Ctx.CacheContext()
 		prePrune := k.GetPruningState(cctx)
@@ -883,10 +902,14 @@ func (e *twEngine) exportImport() {
 func (e *twEngine) pickTime(now time.Time) time.Time {
 	r := e.r
 	recs := e.recs
-	if e.lastKept != nil && r.Intn(8) != 0 { // mostly inside the retained part of the history
+	cut := e.lastKept
+	if e.pickCut != nil {
+		cut = e.pickCut
+	}
+	if cut != nil && r.Intn(8) != 0 { // mostly inside the retained part of the history
 		from := 0
 		for i, rc := range recs {
-			if rc.t.Before(*e.lastKept) {
+			if rc.t.Before(*cut) {
 				from = i
 			}
 		}
@@ -925,8 +948,8 @@ func (e *twEngine) pickTime(now time.Time) time.Time {
 		}
 		return first.Truncate(time.Millisecond).Add(time.Duration(r.Int63n(int64(span)+1)) * time.Millisecond)
 	case 10:
-		if e.lastKept != nil {
-			return e.lastKept.Add(small[r.Intn(3)])
+		if cut != nil {
+			return cut.Add(small[r.Intn(3)])
 		}
 		return last
 	case 11:
@@ -984,6 +1007,9 @@ func (q *twQuery) op(now time.Time) string {
 	name := "arith"
 	if q.geom {
 		name = "geom"
+	}
+	if q.w != "" {
+		return fmt.Sprintf("twap w%s %s %s %s %s %s", name, q.w, nsOf(now), nsOf(q.s), nsOf(q.e), twB01(q.q0))
 	}
 	return fmt.Sprintf("twap %s %s %s %s %s", name, nsOf(now), nsOf(q.s), nsOf(q.e), twB01(q.q0))
 }
@@ -1318,14 +1344,14 @@ func (e *twEngine) queries(cnt int) []*twQuery {
 		if en.Before(s) && e.r.Intn(8) != 0 {
 			s, en = en, s
 		}
-		q := &twQuery{s: s, e: en, q0: e.r.Intn(2) == 0, geom: e.r.Intn(2) == 0}
+		q := &twQuery{s: s, e: en, q0: e.r.Intn(2) == 0, geom: e.r.Intn(2) == 0, w: e.wq}
 		toNow := en.Equal(now) && e.r.Intn(2) == 0
 		e.ask(q, toNow)
 		e.o.Emit(q.op(now), q.obs(), q.status == "ok")
 		e.judge(q, now)
 		out = append(out, q)
 		if q.geom { // the opposite quote direction of the same interval
-			p := &twQuery{s: s, e: en, q0: !q.q0, geom: true}
+			p := &twQuery{s: s, e: en, q0: !q.q0, geom: true, w: e.wq}
 			e.ask(p, toNow)
 			e.o.Emit(p.op(now), p.obs(), p.status == "ok")
 			e.judge(p, now)
@@ -1369,7 +1395,7 @@ func (e *twEngine) pruneRound() {
 		if b.e.After(oldNow) {
 			continue
 		}
-		a := &twQuery{s: b.s, e: b.e, q0: b.q0, geom: b.geom}
+		a := &twQuery{s: b.s, e: b.e, q0: b.q0, geom: b.geom, w: b.w}
 		e.ask(a, false)
 		e.o.Emit(a.op(now), a.obs(), a.status == "ok")
 		e.judge(a, now)
@@ -1405,7 +1431,32 @@ func runTwap(t *testing.T, seed int64, n int, dir string) {
 		e.prunedAt = h.App.TwapKeeper.GetPruningState(h.Ctx).LastKeptTime
 	}
 	histories := 0
+	worlds, opsWorld := 0, 0
+	share := 2
+	if strings.Contains(os.Getenv("VERIF_FAIL_FILTER"), "export-import") {
+		share = 4 // C19 borrows this engine for the export / import op of the single-pool histories
+	}
 	for o.n < n {
+		// world histories (several pools / pairs on a chain of their own, twap_world_test.go) get half of the op budget
+		if os.Getenv("VERIF_TWAP_WORLD") != "0" && opsWorld*share <= o.n {
+			before := o.n
+			hs, ps := e.h, e.prunedAt
+			wbase := time.Date(2040, 1, 1, 0, 0, 0, 0, time.UTC).Add(time.Duration(seed%977)*time.Hour + time.Duration(worlds%300)*700*time.Hour)
+			worlds++
+			h := newH(t)
+			h.Ctx = h.Ctx.WithBlockTime(wbase)
+			h.SetEpochStartTime()
+			e.h = h
+			e.finalize(wbase.Add(5 * time.Second))
+			budget := n / 6
+			if budget < 700 {
+				budget = 700
+			}
+			e.runWorld(budget)
+			e.h, e.prunedAt = hs, ps
+			opsWorld += o.n - before
+			continue
+		}
 		if histories%100 == 0 {
 			if e.h != nil {
 				base = e.h.Ctx.BlockTime().Add(time.Hour).Truncate(time.Second)
